@@ -11,7 +11,7 @@ for d in sorted(glob.glob("/verif/seeded/*/")):
                  m.get("detected_by_quick_check"), m.get("detection", "")))
 with open("/verif/seeded/README.md", "w") as f:
     f.write("# Seeded changes (written by independent sub-agents from the property text only)\n\n"
-            "Each directory holds `patch.diff` (applies to /repo HEAD), `demo.py` (exits 0 on the pristine tree, 1 with the patch) and\n"
+            "Each directory holds `patch.diff` (applies to /repo HEAD), `demo.py` (exits 0 on the pristine tree, 1 with the patch; run as `cd <tree> && PIPEFUNC_TREE=<tree> PYTHONPATH=<tree> /venv/bin/python demo.py`) and\n"
             "`meta.json`. Every change was confirmed with `tools/confirm_seeded.sh`: demo passes pristine / fails patched, the pinned\n"
             "suite still has all 492 baseline tests passing, and the quick check of the property was run against the patched tree.\n\n"
             "| id | property | change | needs | caught by quick check | how |\n|---|---|---|---|---|---|\n")
